@@ -5,7 +5,7 @@ CHECKS = {
   "engine": "E1-history-explorer",
   "technique": "explicit-state BFS over operation histories on the real BondList vs. dict model; exhaustive construction inputs; out-of-range leaves in forked children",
   "ref": "DESIGN.md section 4 C02",
-  "text": "Every operation history up to depth 3 over the listed alphabet from 5 initial lists (one type palette at quick, all five at thorough, plus depth 4 from the 3-atom lists for one palette at thorough), every construction array up to 3 rows, and every out-of-range index leaf at every reached state are executed on the real BondList and compared view by view with a dict model; no sampling. Bounded exhaustive coverage is the right level: the defects in this code are small-scope (index wrap-around, precedence on merge, stale per-atom maximum).",
+  "text": "Every operation history up to depth 3 over the listed alphabet from 5 initial lists (one seed-selected bond-type palette at full depth at quick, all five at thorough, plus depth 4 from the 3-atom lists for one palette at thorough; the other standard palettes at depth 2 and all 50 other pairs of the 10 bond-type values at depth 1 with every seed; an operand with more atoms than the list at every state; a distinct-result law for every operation that returns a list), every construction array up to 3 rows, and every out-of-range index leaf at every reached state are executed on the real BondList and compared view by view with a dict model; no sampling. Bounded exhaustive coverage is the right level: the defects in this code are small-scope (index wrap-around, precedence on merge, stale per-atom maximum).",
   "note": "Trusts the dict model in props/c02.py and numpy's own indexing (np.arange(n)[idx]) as the meaning of an index; self-bonds and wrong-length masks are outside the alphabet; compiled behaviour is taken from the generated C next to bonds.pyx.",
  },
 }
@@ -13,14 +13,14 @@ CHECKS["C20"] = {
   "engine": "E3-tlc-conformance",
   "technique": "TLC explicit-state model checking of tla/AppLifecycle.tla + conformance replay of every model-enabled core call sequence (simulation over the dumped state graph) on the real wrapper classes with a gated fake executable",
   "ref": "DESIGN.md section 4 C20",
-  "text": "TLC explores the life-cycle model completely (all tool behaviours; invariants: clean-up exactly once at run end, nothing left behind, results only after a good run). Every sequence of core calls (start/join/join(timeout)/cancel/get_app_state/release) of length <= 4 (quick) / 5-6 (thorough) that the model enables is replayed on 6 wrapper classes x up to 7 tool behaviours; after each step the observation (outcome class, stored flag, clean-up count, temp files, child liveness, cwd) must match a model successor, and all 12 probe (getter/setter) transitions are checked at every visited state. Results of successful runs are compared with the fake tool's output for every small input set.",
-  "note": "Trusts the TLA+ model as the reading of the documented life cycle, the deterministic fake tool, and /proc for child liveness; real tools and OS-level races are outside. Time enters only through join(timeout=0.05 s) against a child provably blocked on a gate file.",
+  "text": "TLC explores the life-cycle model completely (all tool behaviours; invariants: clean-up exactly once at run end, nothing left behind, results only after a good run). Every sequence of core calls (start/join/join(timeout)/cancel/get_app_state/release) of length <= 4 (quick) / 5-6 (thorough) that the model enables is replayed on 6 wrapper classes x up to 7 tool behaviours; after each step the observation (outcome class, stored flag, clean-up count, temp files, child liveness, cwd) must match a model successor, and all 12 probe (getter/setter) transitions are checked at every visited state. Results of successful runs are compared with the fake tool's output for every small input set. The generic Application.join()/cancel()/get_app_state() that WebApp and user-defined applications inherit is explored separately: every sequence of 8 operations (start, release, tick, join, join(timeout), cancel, get_app_state, get_result) up to depth 5 (quick) / 7 (thorough) on a pure-Python Application whose job and clock are owned by the harness, against a reference life-cycle model.",
+  "note": "Trusts the TLA+ model as the reading of the documented life cycle, the deterministic fake tool, and /proc for child liveness; real tools and OS-level races are outside. For the LocalApp wrappers time enters only through join(timeout=0.05 s) against a child provably blocked on a gate file; the generic Application.join() is explored with a virtual clock owned by the harness (family generic).",
 }
 CHECKS["C01"] = {
   "engine": "E1-history-explorer",
   "technique": "explicit-state BFS over operation histories on real AtomArray/AtomArrayStack objects vs. a list-of-atoms model, canonical-state deduplication, complete observation per state",
   "ref": "DESIGN.md section 4 C01",
-  "text": "Every operation history up to depth 2 (quick) / 3 (thorough) over a ~150-300 operation alphabet (all int/slice/mask/index-array/ellipsis/2-D indices incl. negative and out-of-range values, concatenation, stacking, repeat, from_template, atom and model deletion, atom/model assignment, annotation edits, coord/box/bonds assignment, copy) from 9 initial containers is executed on the real objects and compared with a list-of-atoms model: annotations, coord, per-model box, bonds, __eq__ against a model-built twin and perturbed twins, leaf views, copy independence.",
+  "text": "Every operation history up to depth 2 (quick) / 3 (thorough) over a ~150-300 operation alphabet (all int/slice/mask/index-array/ellipsis/2-D indices incl. negative and out-of-range values, concatenation, stacking, repeat, from_template, atom and model deletion, atom/model assignment, annotation edits, coord/box/bonds assignment, copy) from 9 initial containers is executed on the real objects and compared with a list-of-atoms model: annotations, coord, per-model box, bonds, __eq__ against a model-built twin and perturbed twins, leaf views, copy independence, and a distinct-result law (re-binding edits of every returned container must not reach the operand).",
   "note": "Trusts the list-of-atoms model in props/c01.py and numpy's indexing of np.arange(n) as the meaning of an index; indices numpy rejects only have to raise or yield a coherent container; failed in-place calls only have to leave a coherent container.",
 }
 CHECKS["C03"] = {
